@@ -2657,6 +2657,9 @@ static ASTNode *parse_block(Stage1Parser *p) {
     // fprintf(stderr, "DEBUG: [block_%d depth=%d] Expecting closing '}' at line %d\n",
     //         my_block_id, p->recursion_depth, end_tok ? end_tok->line : 0);
     
+    Token *close_tok = current_token(p);
+    int end_line = close_tok ? close_tok->line : 0;
+    int end_column = close_tok ? close_tok->column : 0;
     if (!expect(p, TOKEN_RBRACE, "Expected '}'")) {
         free(statements);
         p->recursion_depth--;
@@ -2669,6 +2672,8 @@ static ASTNode *parse_block(Stage1Parser *p) {
     ASTNode *node = create_node(AST_BLOCK, line, column);
     node->as.block.statements = statements;
     node->as.block.count = count;
+    node->as.block.end_line = end_line;
+    node->as.block.end_column = end_column;
     p->recursion_depth--;
     return node;
 }
